@@ -2,6 +2,7 @@
 import os, sys, json, random
 from vlib import *
 import overlay_common as oc
+import overlay_audit as oa
 
 PROP = 'C10'
 
@@ -118,6 +119,44 @@ def analyse(cases, obs, bindir, tag, findings, broken, stats):
                            'model': loc[1] if isinstance(loc, tuple) else loc})
     stats['tie_cases'] += len(cases)
 
+def audit_blocks(tier, bindir, findings, broken, stats):
+    """deterministic blocks of the coverage audit (props/overlay_audit.py)"""
+    # entry points / request fields / cells without a model operation: the property's own predicates
+    free = oa.free_cases(PROP, False)
+    fobs = oc.run_harness(free, bindir, 'c10f')
+    f2, b2 = oa.analyse_free(PROP, free, fobs)
+    findings.extend(f2); broken.extend(b2)
+    stats['evals'] += sum(len(c['ops']) + 1 for c in free); stats['audit_free_ops'] = sum(len(c['ops']) for c in free)
+    # configuration cells and the large directory through the model (every cell is the same state transformer)
+    cells = oa.cell_cases(PROP, False, full=(tier == 'thorough')) + oa.bigdir_cases(PROP, False)
+    cobs = oc.run_harness(cells, bindir, 'c10g')
+    good = []
+    for c in cells:
+        ob = cobs.get(c['id'])
+        if (not ob or not ob.get('done') or ob['flags'] or len(ob['ops']) != len(c['ops']) or any(oc.ser(t) != ob['raw'].get(k) for k, t in c['layers'].items())):
+            broken.append({'kind': 'harness', 'name': 'audit block: harness output incomplete or layers not materialised', 'case': c['id']})
+        else: good.append(c)
+    stats['audit_cells'] = len(good)
+    if tier == 'thorough':
+        analyse(good, cobs, bindir, 'g', findings, broken, stats)
+        return
+    for c in good:
+        ob = cobs[c['id']]
+        if ob['lowerchg']:
+            j, layer, new = ob['lowerchg'][0]
+            findings.append({'what': 'lower layer %d changed on disk during %s %s (cfg=%s)' % (layer, c['ops'][j]['k'], c['ops'][j]['p'], c.get('cfg')),
+                             'sig': {'class': 'lower-modified', 'op': c['ops'][j]['k']}, 'input': oc.replay_input(c, j)})
+    tie_fail, errs = oc.eval_bools('c10_cells', [oc.expr_tie(c, cobs[c['id']]) for c in good])
+    if errs: broken.append({'kind': 'correspondence', 'name': 'Coq evaluation of the configuration-cell cases failed', 'log': errs[0]['log']})
+    bad = [good[i] for i in sorted(tie_fail)][:6]
+    if bad:
+        for c, loc in zip(bad, oc.locate_tie('c10_cellloc', bad, cobs)):
+            ob = cobs[c['id']]; k = loc[0] if isinstance(loc, tuple) else None
+            broken.append({'kind': 'correspondence', 'name': 'configuration cell cfg=%s: Model/Overlay.v step vs OverlayFs' % c.get('cfg'), 'case': oc.replay_input(c, k),
+                           'first_differing_op': k, 'implementation': (ob['ops'][k] if k is not None and k < len(ob['ops']) else ob['view0']),
+                           'model': loc[1] if isinstance(loc, tuple) else loc})
+    stats['tie_cases'] += len(good); stats['evals'] += sum(len(c['ops']) + 1 for c in good)
+
 def run_check(tier, seed):
     ev = Evidence(PROP, tier, seed)
     ev.cov['checker_cmd'] = 'make -C coq Props/C10.vo (coqc 8.16.1, full .vo) + Print Assumptions audit; harness bin overlay; coq_check_cases'
@@ -139,10 +178,11 @@ def run_check(tier, seed):
     if not ok:
         broken.append({'kind': 'harness-build', 'log': out[-3000:]})
     else:
-        n = 40 if tier == "quick" else 1500
+        n = 24 if tier == "quick" else 1500      # (trimmed from 40 when the deterministic audit blocks were added)
         cases, obs, badh = oc.explore(PROP, seed, n, False, bindir, 'c10', patterns=('full' if tier == 'thorough' else True), open_flags_enum=True)
         if badh: broken.append({'kind': 'harness', 'name': 'harness output incomplete or layers not materialised as generated', 'cases': badh[:5]})
         analyse(cases, obs, bindir, 'a', findings, broken, stats)
+        audit_blocks(tier, bindir, findings, broken, stats)
         if broken and not [f for f in findings if not finding_known(f, known_findings(PROP))]:
             # a proof or tie broke: search harder for a concrete failing input
             cases2, obs2, _ = oc.explore(PROP, seed + 7919, n * 4, False, bindir, 'c10x', with_corpus=False)
@@ -157,4 +197,5 @@ def run_check(tier, seed):
     ev.cov['op_result_histogram'] = dict(sorted(stats['hist'].items()))
     ev.cov['model_vs_impl_cases'] = stats['tie_cases']
     ev.cov['pattern_cases'] = stats.get('patterns', 0)
+    ev.cov['audit_free_ops'] = stats.get('audit_free_ops', 0); ev.cov['audit_cell_cases'] = stats.get('audit_cells', 0)
     return finish(ev, PROP, findings, broken)
